@@ -95,3 +95,46 @@
         }
         assert!(strings.len() > 100_000);
     }
+
+    // ---- the escaper itself, called directly on a Formatter (through write! the core::fmt machinery does not finish)
+//# crate_attr #![cfg_attr(kani, feature(formatting_options))]
+    struct ArraySink { buf: [u8; 24], n: usize }
+    impl fmt::Write for ArraySink {
+        fn write_str(&mut self, s: &str) -> fmt::Result {
+            let b = s.as_bytes(); let mut i = 0;
+            while i < b.len() { if self.n < 24 { self.buf[self.n] = b[i]; self.n += 1; } i += 1; }
+            Ok(())
+        }
+    }
+//# ob name=html_escape_fmt_contract fn=utils::HtmlEscape::fmt kind=bounded tier=thorough bound="all UTF-8 strings of length <= 3 bytes" stmt="HtmlEscape(s) writes a text that contains none of < > \" ' / raw and no & except as the head of one of the six entities, every other byte verbatim and in order (un-escaping gives back s), and writes each input byte exactly once"
+    #[kani::proof]
+    #[kani::unwind(26)]
+    fn html_escape_fmt_contract() {
+        let b: [u8; 3] = kani::any();
+        let n: usize = kani::any(); kani::assume(n <= 3);
+        let s = match std::str::from_utf8(&b[..n]) { Ok(s) => s, Err(_) => return };
+        let mut sink = ArraySink { buf: [0; 24], n: 0 };
+        {
+            let mut f = fmt::Formatter::new(&mut sink, fmt::FormattingOptions::new());
+            let r = fmt::Display::fmt(&HtmlEscape(s), &mut f);
+            assert!(r.is_ok());
+        }
+        // walk the output, un-escaping on the fly, and compare with the input
+        let mut o = 0usize; let mut i = 0usize;
+        while i < n {
+            let c = b[i];
+            let ent: &[u8] = match c { b'<' => b"&lt;", b'>' => b"&gt;", b'&' => b"&amp;", b'"' => b"&quot;", b'\'' => b"&#x27;", b'/' => b"&#x2f;", _ => b"" };
+            if ent.is_empty() {
+                assert!(o < sink.n && sink.buf[o] == c);
+                o += 1;
+            } else {
+                let mut k = 0;
+                while k < ent.len() { assert!(o + k < sink.n && sink.buf[o + k] == ent[k]); k += 1; }
+                o += ent.len();
+            }
+            i += 1;
+        }
+        assert!(o == sink.n);
+        kani::cover!(n == 3 && sink.n > 12, "three metacharacters");
+        kani::cover!(n == 3 && sink.n == 3, "nothing to escape");
+    }
